@@ -710,6 +710,10 @@ class Server(base_server.BaseServer):
                 self._handle_ack(eio_sid, pkt.namespace, pkt.id, pkt.data)
             elif pkt.packet_type == packet.BINARY_EVENT or \
                     pkt.packet_type == packet.BINARY_ACK:
+                if not isinstance(pkt.data, list):
+                    # (an attachment could be put in its place)
+                    raise ValueError('The payload of a binary packet is a '
+                                     'list.')
                 if eio_sid in self.environ or any(
                         self.manager.is_connected(
                             self.manager.sid_from_eio_sid(eio_sid, n), n)
